@@ -1949,10 +1949,20 @@ def _mentions_elem(z, tag, mid, idx):
 
 def _mentions_any_elem(tag, mid):
     if isinstance(tag, tuple):
-        if len(tag) == 4 and tag[0] in ('slot', 'pair', 'stored') and tag[1] == mid:
+        if len(tag) >= 4 and tag[0] in ('slot', 'pair', 'stored') and tag[1] == mid:
             return True
         return any(_mentions_any_elem(x, mid) for x in tag if isinstance(x, tuple))
     return False
+
+
+def _ghost_bump(st, key, mid):
+    """one more kept element of container `mid` was seen in an iteration of loop `key`"""
+    g = st.ghost.get(key)
+    if g is None:
+        t, mids = 0, ()
+    else:
+        t, mids = g
+    st.ghost[key] = (slots.plus(st, t, 1), tuple(sorted(set(mids) | {mid})))
 
 
 def merge_iteration(mode):
@@ -1990,8 +2000,7 @@ def merge_iteration(mode):
                            'fold must pass every element of the unfiltered operand to the closure exactly once', it)
                 else:
                     E.iter_classes['counted'] += 1
-                    it_req(E, props, 'POL', consumed, nm + ':count',
-                           'every element of the unfiltered operand must be counted', it)
+                    _ghost_bump(st, key, mid)
                 return
             pol = 'inter' if role[1] == INTER else 'diff'
             pr = _probe(E, st, seg)
@@ -2023,8 +2032,8 @@ def merge_iteration(mode):
                            'fold must not pass an element to the closure that next() would skip', it)
             else:
                 E.iter_classes['counted' if keep else 'skipped'] += 1
-                it_req(E, props, 'POL', keep == consumed, nm + ':count',
-                       'count must count exactly the elements that next() would yield', it)
+                if keep:
+                    _ghost_bump(st, key, mid)
         return hook
     return mk
 
@@ -2129,23 +2138,66 @@ def h_merge_hint(ctx, p):
 
 
 def h_merge_count(ctx, p):
+    """count() == number of items next() would still yield.  Evidence about how many elements of which parts
+    were kept: (a) what core's default count() reported for a sub-iterator ('counted' events), (b) ghost
+    counters -- per loop, the per-iteration hook counts the iterations whose element next() would yield,
+    (c) a plain part's remaining length.  The result must be the sum of such figures covering every part once."""
     nm = ctx.body.name
+    from .interp import to_aff, aff_add
+    import itertools
     ctx.classes['hint'] += 1
-    roles = _roles(p.E)
-    cnt = [e for e in p.events if e[0] == 'counted']
-    v = p.val
-    leaves = list(v[1]) if v[0] == 'sum' else [v]
-    used = []
-    ok = bool(roles)
-    for x in leaves:
-        hit = [e for e in cnt if x[0] == 'int' and p.z.entails_eq(x[1], e[2])]
-        if not hit:
-            ok = False
-            break
-        used.extend(hit[0][1])
-    ctx.req('HINT', ok and sorted(used) == sorted(roles), nm,
+    z = p.z
+    P0, m0 = _parts_by_mid(p, p.self0)
+    if not m0:
+        ctx.req('HINT', False, nm, 'cannot identify the parts of the iterator', p)
+        return
+    ends = {e[1] for e in p.events if e[0] == 'cursor-end'}
+    groups = []          # (frozenset of container ids, affine value)
+    for e in p.events:
+        if e[0] == 'counted' and e[1] and all(m in m0 for m in e[1]):
+            groups.append((frozenset(e[1]), to_aff(('int', e[2]))))
+    for k, (t, mids) in p.st.ghost.items():
+        if mids and all(m in m0 and m in ends for m in mids):
+            groups.append((frozenset(mids), to_aff(('int', t))))
+    for m, q in m0.items():
+        f, b = _part_cur(q)
+        if q[0] == 'plain':
+            groups.append((frozenset([m]), to_aff(('slen', f, b))))
+        if m in ends or z.entails_le(b, f):
+            # driven to its end; if no loop iteration kept an element of it, it contributed nothing
+            if not any(m in g[0] for g in groups if g[1] != ((), 0)):
+                groups.append((frozenset([m]), ((), 0)))
+    v = to_aff(p.val) if p.val[0] in ('int', 'slen', 'aff') else None
+    if v is not None:
+        # name the result's terms after the figures they are equal to
+        terms = []
+        for t, c in v[0]:
+            if z.entails_eq(t, 0):
+                continue            # (a counter that is provably still 0)
+            for g in groups:
+                if len(g[1][0]) == 1 and g[1][1] == 0 and g[1][0][0][1] == 1 and z.entails_eq(t, g[1][0][0][0]):
+                    t = g[1][0][0][0]
+                    break
+            terms.append((t, c))
+        v = aff_add(((), 0), (tuple(terms), v[1]), 1)
+    ok = False
+    if v is not None:
+        allm = frozenset(m0)
+        for n in range(1, len(groups) + 1):
+            for gs in itertools.combinations(groups, n):
+                ms = [g[0] for g in gs]
+                if sum(len(x) for x in ms) != len(allm) or frozenset().union(*ms) != allm:
+                    continue
+                acc = ((), 0)
+                for g in gs:
+                    acc = aff_add(acc, g[1], 1)
+                d = aff_add(v, acc, -1)
+                if not d[0] and d[1] == 0:
+                    ok = True
+    ctx.req('HINT', ok, nm,
             'count must be the number of items the parts yield: the count of the whole iterator, or the sum of the '
-            'counts of all its parts, each part once', p)
+            'counts of all its parts, each part once (figures available on this path: %s)'
+            % ([(sorted(g[0]), g[1]) for g in groups][:6],), p)
 
 
 def h_merge_fold(ctx, p):
@@ -2338,14 +2390,17 @@ ITER_HOOKS = {
     (DIFF, 'Iterator', 'next'): ({'C08'}, filter_iteration('diff', False), set()),
     (DIFFREF, 'Iterator', 'next'): ({'C08'}, filter_iteration('diff', False), set()),
     (INTER, 'Iterator', 'next'): ({'C08'}, filter_iteration('inter', False), set()),
-    (DIFF, 'Iterator', 'fold'): ({'C08'}, filter_iteration('diff', True), {'folded', 'dropped'}),
-    (DIFFREF, 'Iterator', 'fold'): ({'C08'}, filter_iteration('diff', True), {'folded', 'dropped'}),
-    (INTER, 'Iterator', 'fold'): ({'C08'}, filter_iteration('inter', True), {'folded', 'dropped'}),
+    (DIFF, 'Iterator', 'fold'): ({'C08'}, merge_iteration('fold'), {'folded', 'dropped'}),
+    (DIFFREF, 'Iterator', 'fold'): ({'C08'}, merge_iteration('fold'), {'folded', 'dropped'}),
+    (INTER, 'Iterator', 'fold'): ({'C08'}, merge_iteration('fold'), {'folded', 'dropped'}),
     (UNION, 'Iterator', 'next'): ({'C08'}, merge_iteration('next'), {'skipped'}),
     (SYMDIFF, 'Iterator', 'next'): ({'C08'}, merge_iteration('next'), {'skipped'}),
     (UNION, 'Iterator', 'fold'): ({'C08'}, merge_iteration('fold'), {'folded', 'dropped'}),
     (SYMDIFF, 'Iterator', 'fold'): ({'C08'}, merge_iteration('fold'), {'folded', 'dropped'}),
     (UNION, 'Iterator', 'count'): ({'C08'}, merge_iteration('count'), {'counted', 'skipped'}),
+    (DIFF, 'Iterator', 'count'): ({'C08'}, merge_iteration('count'), {'counted', 'skipped'}),
+    (DIFFREF, 'Iterator', 'count'): ({'C08'}, merge_iteration('count'), {'counted', 'skipped'}),
+    (INTER, 'Iterator', 'count'): ({'C08'}, merge_iteration('count'), {'counted', 'skipped'}),
     (MAP, 'Serialize', 'serialize'): ({'C20'}, serialize_iteration('serialize_entry', 2), {'entry'}),
     (SET, 'Serialize', 'serialize'): ({'C20'}, serialize_iteration('serialize_element', 1), {'entry'}),
     ('serialization::Vi', 'Visitor', 'visit_map'): ({'C20'}, lambda pr: bulk_iteration(pr, _pulled_access('next_entry'), _item_of_access), {'item', 'hit', 'append'}),
@@ -2482,8 +2537,10 @@ def required_classes(key):
         return CLASSES[key]
     if key[0] in (UNION, SYMDIFF) and key in HANDLERS:
         return {'next': {'none', 'some'}, 'size_hint': {'hint'}, 'count': {'hint'}, 'fold': {'folded-all'}}[key[2]]
-    if key[0] in (DIFF, DIFFREF, INTER) and key[2] == 'size_hint':
+    if key[0] in (DIFF, DIFFREF, INTER) and key[2] in ('size_hint', 'count'):
         return {'hint'}
+    if key[0] in (DIFF, DIFFREF, INTER) and key[2] == 'fold':
+        return {'folded-all'}
     if key in INSERTIONS:
         return {'hit', 'append'} | ({'neither'} if INSERTIONS[key][6] is not None else set())
     if key in REMOVALS:
@@ -2627,6 +2684,12 @@ HANDLERS.update({
     (DIFF, 'Iterator', 'size_hint'): ({'C08'}, h_filter_hint('diff')),
     (DIFFREF, 'Iterator', 'size_hint'): ({'C08'}, h_filter_hint('diff')),
     (INTER, 'Iterator', 'size_hint'): ({'C08'}, h_filter_hint('inter')),
+    (DIFF, 'Iterator', 'fold'): ({'C08'}, h_merge_fold),
+    (DIFFREF, 'Iterator', 'fold'): ({'C08'}, h_merge_fold),
+    (INTER, 'Iterator', 'fold'): ({'C08'}, h_merge_fold),
+    (DIFF, 'Iterator', 'count'): ({'C08'}, h_merge_count),
+    (DIFFREF, 'Iterator', 'count'): ({'C08'}, h_merge_count),
+    (INTER, 'Iterator', 'count'): ({'C08'}, h_merge_count),
     (SET, None, 'difference'): ({'C08'}, h_make_algebra('difference')),
     (SET, None, 'difference_ref'): ({'C08'}, h_make_algebra('difference')),
     (SET, None, 'intersection'): ({'C08'}, h_make_algebra('intersection')),
@@ -2705,11 +2768,27 @@ def check_root(E, body, rr):
                 except Exception:
                     self0 = None
                 d += 1
+        def entry_self0(args, st0):
+            v = args[0] if args else None
+            d = 0
+            while v is not None and v[0] == 'ref' and d < 4:
+                try:
+                    v = E.load(st0, v[2], quiet=True)
+                except Exception:
+                    v = None
+                d += 1
+            return v
         for s, val in rets:
             p = Path(E, body, s, val, first, dict(tags))
             p.self0 = self0
             p.subjects_all = subj
             p.args0 = rr.args
+            ent = [n for n in s.notes if n[0] == 'entry']
+            if ent and ent[-1][1] < len(getattr(rr, 'entries', ())) and ent[-1][1] > 0:
+                # (a root analysed from several entry states: Option<iterator> fields present / absent)
+                a_n, st_n = rr.entries[ent[-1][1]]
+                p.self0 = entry_self0(a_n, st_n)
+                p.args0 = a_n
             p.idx0 = None
             p.variant_fields = {}
             # Entry receivers: the index of the Occupied variant as materialised on this path
